@@ -69,8 +69,13 @@ def lib(config):
     lockf = open(os.path.join(BUILD, ".lock-" + config), "w")
     fcntl.flock(lockf, fcntl.LOCK_EX)
     try:
-        if not os.path.exists(os.path.join(d, "libCello.a")):
-            for old in glob.glob(os.path.join(BUILD, config + "-*")):
+        if os.path.exists(os.path.join(d, "libCello.a")):
+            os.utime(d)
+        else:
+            # keep the few most recently used trees of this config (parallel runs against scratch
+            # copies via VERIF_REPO must not delete each other's builds); drop the rest
+            olds = sorted(glob.glob(os.path.join(BUILD, config + "-*")), key=lambda x: os.path.getmtime(x), reverse=True)
+            for old in olds[5:]:
                 shutil.rmtree(old, ignore_errors=True)
             tmp = d + ".tmp%d" % os.getpid()
             os.makedirs(tmp, exist_ok=True)
